@@ -352,10 +352,11 @@ pub fn def() -> PropDef {
     PropDef {
         id: "C10",
         level: "exploration",
-        rule: "case index walks socket kind (PUSH/DEALER/REQ) x peer count 0..4; peers join after drawn delays (some before the first send, some between sends) - in rr_world by connecting to the bound socket (membership from Accepted monitor events), in rr_connect by being dialled with connect() at drawn positions between the sends, some listeners appearing only after a drawn virtual delay of up to 9 s so that connect() goes through the library's refused / back-off / retry loop on the simulated clock (membership = completed connect calls); 1..14 sends with drawn shapes; connection taps are snapshotted at the instant send returns (same task step); membership is taken from Accepted monitor events; rotation is asserted only over maximal runs of sends with unchanged membership; non-trivial = a rotation window of >= 2 peers was judged or a no-peer send was judged; distinct = distinct (plan, schedule, transport) hashes",
+        rule: "case index walks socket kind (PUSH/DEALER/REQ) x peer count 0..4; peers join after drawn delays (some before the first send, some between sends) - in rr_world by connecting to the bound socket (membership from Accepted monitor events), in rr_connect by being dialled with connect() at drawn positions between the sends, some listeners appearing only after a drawn virtual delay of up to 9 s so that connect() goes through the library's refused / back-off / retry loop on the simulated clock (membership = completed connect calls); rr_rejoin: the departure/rejoin histories of C16 for DEALER, judged only for 'sends reach the rejoined peer'; 1..14 sends with drawn shapes; connection taps are snapshotted at the instant send returns (same task step); membership is taken from Accepted monitor events; rotation is asserted only over maximal runs of sends with unchanged membership; non-trivial = a rotation window of >= 2 peers was judged or a no-peer send was judged; distinct = distinct (plan, schedule, transport) hashes",
         assumptions: &["during the judged sends nobody departs; in one case in three one peer then closes its connection, and once a send has failed on it (the socket's observation of the departure) every further send must succeed on exactly one remaining peer and rotate strictly over them (rejoin is judged under C16)", "REQ partners always reply, so that REQ can alternate"],
         strata: vec![
             Stratum { name: "rr_world", quick: 120_000, thorough: (2_000_000) * 5, exhaustive: (false, false), run: rr_world, what: "send placement at return time, strict rotation over stable membership, empty rotation" },
+            Stratum { name: "rr_rejoin", quick: 9_600, thorough: 800_000, exhaustive: (false, false), run: super::c16::rejoin_in_rotation, what: "DEALER: a peer that comes back under its announced identity (16 departure/rejoin histories) is in the rotation again: sends reach it" },
             Stratum { name: "rr_connect", quick: 60_000, thorough: 5_000_000, exhaustive: (false, false), run: rr_connect, what: "the socket dials 0..4 harness listeners between sends; some listeners appear late, so connect() retries on the virtual clock" },
         ],
     }
